@@ -3215,6 +3215,15 @@ RESUME_VALIDATE_CERTS:
         rc = -1;  /* Force the check on existence of user callback */
     }
 
+    /*  psX509AuthenticateCert records date, keyUsage and similar failures in
+        authStatus and still returns success, so the alert derived from the
+        walk above is a validation failure of its own (as in the TLS 1.3
+        path) */
+    if (rc >= 0 && ssl->err != SSL_ALERT_NONE)
+    {
+        rc = -1;
+    }
+
     if (rc < 0)
     {
         psTraceInfo("WARNING: cert did not pass internal validation test\n");
